@@ -141,6 +141,10 @@ def gen_cases(tier):
                     if lay == "line":
                         # the same script behind a comment line that holds a lone apostrophe (quote-aware pre-processing must not lose its bearings)
                         cases.append({"fam": "C", "tabs": list(tabs), "schema": sch, "layout": "glued", "apos": True})
+                        # wave 8: ... and directly behind a statement the lexer rejects half-way (unknown symbol inside / outside parentheses,
+                        # in an ALTER, in an index expression): whatever that statement switched on must not reach the tables
+                        for ri in range(len(REJECTED)):
+                            cases.append({"fam": "C", "tabs": list(tabs), "schema": sch, "layout": "glued", "rej": ri})
     cases += scale_cases(deep)
     return cases
 
@@ -267,6 +271,8 @@ def build(case):
 
 
 ATTRS = ("name", "type", "size", "nullable", "default")
+REJECTED = ["CREATE TABLE r0 (id int, CHECK (id ^ 2 < 100));", "CREATE INDEX ri ON r0 ((id ^ 2));", "CREATE VIEW rv AS SELECT a FROM r0 WHERE b ^ 2 > 100;",
+            "ALTER TABLE ONLY r0 ADD CONSTRAINT rc CHECK (((id ^ 2.0) < 100.0));", "CREATE FUNCTION rf(n int) RETURNS int AS $$ SELECT 2^n $$ LANGUAGE sql;"]
 
 
 def _ddl(case):
@@ -275,6 +281,8 @@ def _ddl(case):
         ddl = ddl.replace(";", "", 1)
     elif case.get("nosemi"):
         ddl = "\n".join(l.rstrip().rstrip(";") for l in ddl.split("\n") if l.strip())
+    if case.get("rej") is not None:
+        ddl = REJECTED[case["rej"]] + "\n" + ddl
     return ("-- the customer's data\n" + ddl if case.get("apos") else ddl), exps
 
 
